@@ -2,6 +2,7 @@ package c13
 
 import (
 	"bytes"
+	"errors"
 	"fmt"
 	"regexp"
 	"strconv"
@@ -26,9 +27,10 @@ type fataler interface {
 
 // world is one server with one logged-in session that has INBOX selected.
 type world struct {
-	b *bed.Bed
-	u *bed.User
-	s *bed.Session
+	b      *bed.Bed
+	u      *bed.User
+	s      *bed.Session
+	closed bool
 }
 
 func newWorld(t *testing.T) *world {
@@ -39,14 +41,34 @@ func newWorld(t *testing.T) *world {
 		t.Fatalf("VERIF-INCONCLUSIVE: cannot start the server: %v", err)
 	}
 
-	t.Cleanup(b.Destroy)
-
 	w := &world{b: b, u: b.Users[0]}
 	w.connect(t)
 
-	t.Cleanup(func() { w.s.Logout() })
+	t.Cleanup(w.close)
 
 	return w
+}
+
+// close logs out and removes the server with its directories (idempotent).
+func (w *world) close() {
+	if w.closed {
+		return
+	}
+
+	w.closed = true
+
+	w.s.Logout()
+	w.b.Destroy()
+}
+
+// inconclusive reports a fired client watchdog (60 s for an answer that normally takes milliseconds): a time budget is
+// not a correctness signal.
+func inconclusive(t fataler, cmd string, err error) {
+	t.Helper()
+
+	if errors.Is(err, imapc.ErrTimeout) {
+		t.Fatalf("VERIF-INCONCLUSIVE: no answer to %q within the client watchdog: %v", cmd, err)
+	}
 }
 
 func (w *world) connect(t fataler) {
@@ -93,6 +115,8 @@ func (w *world) store(t fataler, m *msg, via string) {
 	switch via {
 	case "append":
 		r := w.s.DoParts(imapc.T("APPEND INBOX "), imapc.L(m.A))
+		inconclusive(t, "APPEND", r.Err)
+
 		if !r.OK() {
 			t.Fatalf("generator soundness or C13: APPEND of a generated message refused: %v\n%s", r, m.describe())
 		}
@@ -133,6 +157,7 @@ func (w *world) store(t fataler, m *msg, via string) {
 	w.panics(t, m, cmd)
 
 	if r.Err != nil {
+		inconclusive(t, cmd, r.Err)
 		t.Fatalf("C13: %s: response stream broken (a literal whose announced length is wrong derails the tokenizer): %v\n%s", cmd, r.Err, m.describe())
 	}
 
@@ -297,6 +322,7 @@ func (w *world) fetch(t fataler, ms []*msg, specs []spec, byUID, parens bool) st
 	w.panics(t, ms[0], cmd)
 
 	if r.Err != nil {
+		inconclusive(t, cmd, r.Err)
 		t.Fatalf("C13: %s: response stream broken (a literal whose announced length is wrong derails the tokenizer): %v\n%s\n%s",
 			cmd, r.Err, tail(w.b.Hist.Lines(), 6), ms[0].describe())
 	}
